@@ -28,6 +28,10 @@ PACK = 8
 
 LAYOUT_OUT = ["cli", "pk.cli", "pk.sub.cli"]
 LAYOUT_CORE = [None, "core", "pk.core", "pk.shared.core", "pk.a.b.core"]
+# package names that are textually related: the client's last component is a prefix of the core's name, the core's name is a prefix of the
+# client's, a component is named like a standard-library module that generated code imports
+LAYOUT_RELATED = [("acme.api", "api_core"), ("acme.api", "acme.api_core"), ("api", "api_core"), ("pk.core_client", "pk.core"), ("pk.cli", "pk.cli_core"),
+                  ("acme.date", None), ("acme.json", "acme.json_core"), ("acme.typing", "typing_core")]
 NAMING = ["operationId", "clean", "path"]
 STATUS_MENU = ["200", "201", "202", "204", "206", "302", "400", "404", "422", "500", "503", "default"]
 RESP6 = ["none", "json-model", "json-array-model", "json-string", "text-plain", "octet"]
@@ -96,6 +100,9 @@ def cases(tier, seed):
             for ns in NAMING:
                 for dn in lay_docs:
                     out.append({"kind": "layout", "doc": dn, "out": o, "core": c, "naming": ns})
+    for o, c in LAYOUT_RELATED:
+        for dn in (["petstore", "wrappers", "streams", "codes"] if tier == "quick" else doc_names):
+            out.append({"kind": "layout", "doc": dn, "out": o, "core": c, "naming": "operationId"})
     for dn in doc_names:
         c = {"kind": "layout", "doc": dn, "out": "cli", "core": None, "naming": "operationId"}
         if c not in out:
